@@ -102,12 +102,13 @@ def contracts():
         r matches Ok(v) ==> v.body@ == final(w).net.last_body, //@C02.body_is_response_body
 """, loops={1: "    invariant" + LOOP_NET_INV + DB_PRE + """
         roots_match(client.roots@, w.net.trust_roots), !client.insecure@,
-        w.net.posts == old(w).net.posts + it.index@, //@C08.one_transmission_per_round
+        old(w).net.posts <= w.net.posts,
+        w.net.posts <= old(w).net.posts + $ROUND, //@C08.one_transmission_per_round,C07.every_request_is_given_up_after_a_bounded_number_of_transmissions
         crate::DEFAULT_HTTP_FAIL_NB_RETRY == 10, //@C08.retry_constant_is_10
         // a further round is reached only after a non-2xx answer whose problem document names a recoverable type
-        it.index@ > 0 ==> !w.net.last_success && recoverable_body(w.net.last_body), //@C08.retry_only_after_recoverable_error
-"""}, at=[("loop_iter", None, 1, "it:"),
-          ("before_stmt", ".send(", 1, """
+        $ROUND > 0 ==> !w.net.last_success && recoverable_body(w.net.last_body), //@C08.retry_only_after_recoverable_error
+"""}, counted={1: "ROUND"},
+      at=[("before_stmt", ".send(", 1, """
         proof {
             // history variable: the body about to be sent was built, in this round, from exactly (stored nonce, this url)
             let n_view = match nonce_view(endpoint.nonce) { Some(s) => s, None => Seq::<char>::empty() };
@@ -128,11 +129,10 @@ def contracts():
     pool_loop = {1: "    invariant" + LOOP_NET_INV + DB_PRE + """
         forall|o| break_fn.requires((o,)),
         crate::DEFAULT_POOL_NB_TRIES == 20, //@C08.poll_constant_is_20
-        w.net.posts <= old(w).net.posts + it.index@ * 10, //@C08.one_request_per_poll
+        w.net.posts <= old(w).net.posts + $ROUND * 10, //@C08.one_request_per_poll,C07.every_poll_is_given_up_after_a_bounded_number_of_requests
 """}
-    pool_at = [("loop_iter", None, 1, "it:")]
-    c["pool_authorization"] = FnSpec(ret="r", ghost=True, sig=pool_sig, loops=pool_loop, at=pool_at)
-    c["pool_order"] = FnSpec(ret="r", ghost=True, sig=pool_sig, loops=pool_loop, at=pool_at)
+    c["pool_authorization"] = FnSpec(ret="r", ghost=True, sig=pool_sig, loops=pool_loop, counted={1: "ROUND"})
+    c["pool_order"] = FnSpec(ret="r", ghost=True, sig=pool_sig, loops=pool_loop, counted={1: "ROUND"})
     c["get_certificate"] = FnSpec(ret="r", ghost=True, sig="    requires" + NET_PRE + DB_PRE + "    ensures" + NET_POST + """
         final(w).net.posts <= old(w).net.posts + 10,
         r matches Ok(s) ==> s@ == final(w).net.last_body && final(w).net.last_success, //@C02.certificate_is_response_body
